@@ -94,7 +94,12 @@ class Ctx:
                 if cfg is None:
                     fn(self)
                 else:
-                    fn(self, self.facts(cfg))
+                    import absint
+                    absint.set_usize_bits(extract.CONFIGS.get(cfg, {}).get("ptr", 64))
+                    try:
+                        fn(self, self.facts(cfg))
+                    finally:
+                        absint.set_usize_bits(64)
             except MissingAnchor as e:
                 self.ob(False, "anchor-missing:%s" % str(e).split(" (config")[0], "", str(e))
             except SystemExit:
